@@ -67,6 +67,38 @@ func zzPair(t *testing.T, cpu abi.CPUType, nPad, dataPad int) (pc, got, want int
 	return
 }
 
+// zzTwoPairs: one function that addresses the same data symbol twice, the second pair n2 instructions
+// behind the first; returns for each pair the pc and the address the CPU computes.
+func zzTwoPairs(t *testing.T, n1, n2, dataPad int) (pcs, gots [2]int64, want int64) {
+	var sb strings.Builder
+	sb.WriteString(".section .data\n")
+	if dataPad > 0 {
+		sb.WriteString(fmt.Sprintf(".zz.pad: .ascii \"%s\"\n", strings.Repeat("x", dataPad)))
+	}
+	sb.WriteString(".zz.msg: .ascii \"hello\\n\\000\"\n\n.section .text\n.globl _start\n_start:\n")
+	filler := "    addi.d $t1, $zero, 0\n"
+	pair := "    pcalau12i $t0, %pc_hi20(.zz.msg)\n    addi.d    $t0, $t0, %pc_lo12(.zz.msg)\n"
+	sb.WriteString(strings.Repeat(filler, n1) + pair + strings.Repeat(filler, n2) + pair + "    addi.d $a7, $zero, 93\n    syscall 0\n")
+	opt := &abi.LinkOptions{CPU: abi.LOONG64, DRAMBase: 0x120000000, DRAMSize: 16 << 20}
+	prog, err := AssembleFile("zz.wa.s", []byte(sb.String()), opt)
+	if err != nil {
+		t.Fatalf("COUNTEREXAMPLE loong64 with two pairs (%d, %d fillers) does not assemble: %v", n1, n2, err)
+	}
+	want = prog.DataAddr + int64(dataPad)
+	for k, slot := range []int{n1, n1 + 2 + n2} {
+		off := int(prog.Entry-prog.TextAddr) + 4*slot
+		pc := prog.TextAddr + int64(off)
+		x0 := binary.LittleEndian.Uint32(prog.TextData[off:])
+		x1 := binary.LittleEndian.Uint32(prog.TextData[off+4:])
+		if x0&0xfe000000 != 0x1a000000 || x1&0xffc00000 != 0x02c00000 {
+			t.Fatalf("COUNTEREXAMPLE loong64, two pairs (%d, %d fillers): words %#08x %#08x of pair %d are not pcalau12i/addi.d", n1, n2, x0, x1, k)
+		}
+		rd := (pc + zzSext((x0>>5)&0xFFFFF, 20)<<12) &^ 0xFFF
+		pcs[k], gots[k] = pc, rd+zzSext((x1>>10)&0xFFF, 12)
+	}
+	return
+}
+
 func TestVerifBounded(t *testing.T) {
 	maxPad := 1100
 	if os.Getenv("VERIF_TIER") == "thorough" {
@@ -91,5 +123,20 @@ func TestVerifBounded(t *testing.T) {
 			}
 		}
 	}
-	fmt.Printf("BOUNDED {\"cases\": %d, \"bound\": \"LoongArch pcalau12i/addi.d pairs addressing a data symbol, preceded by 0..%d filler instructions (every slot, page ends included; every 7th slot for 4 further symbol offsets)\"}\n", cases, maxPad)
+	// the same symbol addressed twice in one function, the two pairs in the same page, in neighbouring pages
+	// and two pages apart (the high part depends on the pc of each pair, the low part does not)
+	for _, dataPad := range []int{0, 2049} {
+		for _, n1 := range []int{0, 1, 500, 1021, 1022, 1023} {
+			for _, n2 := range []int{0, 1, 2, 500, 1019, 1020, 1021, 1022, 1023, 1100, 2046, 2047} {
+				cases++
+				pcs, gots, want := zzTwoPairs(t, n1, n2, dataPad)
+				for k := 0; k < 2; k++ {
+					if gots[k] != want {
+						t.Fatalf("COUNTEREXAMPLE loong64: two pairs addressing one symbol (%d fillers, pair, %d fillers, pair; symbol %d bytes into .data): pair %d at pc=%#x makes the CPU compute %#x, the symbol is at %#x", n1, n2, dataPad, k, pcs[k], gots[k], want)
+					}
+				}
+			}
+		}
+	}
+	fmt.Printf("BOUNDED {\"cases\": %d, \"bound\": \"LoongArch pcalau12i/addi.d pairs addressing a data symbol, preceded by 0..%d filler instructions (every slot, page ends included; every 7th slot for 4 further symbol offsets); two pairs addressing one symbol in one function at 6 x 12 distances (same page, next page, two pages apart) for 2 symbol offsets\"}\n", cases, maxPad)
 }
